@@ -3,6 +3,9 @@ CONSTANTS
   SaveSameDirFirst = TRUE
   SeedAllGoverning = TRUE
   RemoveByIdentity = FALSE
+  QueueKept = TRUE
+  ManifestWins = TRUE
+  ForgetUnlinked = TRUE
   Export = FALSE
 INVARIANT C03_ExactCover
 INVARIANT C10_NothingBeforeSave
